@@ -94,7 +94,7 @@ template <class A> static Verdict check_type(const Fields &f, bool *nontrivial, 
                (u->query.first != nullptr) + (u->fragment.first != nullptr) + (u->userInfo.first != nullptr) + (u->portText.first != nullptr);
   std::vector<int> caps;
   if (N <= 256) for (int c = -2; c <= N + 3; c++) caps.push_back(c);
-  else { for (int c = -2; c <= 8; c++) caps.push_back(c); for (int c = N - 8; c <= N + 3; c++) caps.push_back(c); for (int c = 9; c < N - 8; c += 7) caps.push_back(c); }
+  else { for (int c = -2; c <= 8; c++) caps.push_back(c); for (int c = N - 8; c <= N + 3; c++) caps.push_back(c); int stride = N / 64 > 7 ? N / 64 : 7; for (int c = 9; c < N - 8; c += stride) caps.push_back(c); }  // about 64 interior capacities for long texts
   for (int c : {INT_MIN, INT_MIN + 1, -INT_MAX / 2}) caps.push_back(c);  // "no room" in its most extreme spellings
   for (int c : caps) {
     size_t cap = c > 0 ? (size_t)c : 0;
